@@ -2246,20 +2246,18 @@ class StridedInterval:
     @normalize_types
     def concat(self, b: StridedInterval) -> StridedInterval:
         # Zero-extend
-        a = self.nameless_copy()
-        a._bits += b.bits
+        a = self.nameless_copy().zero_extend(self.bits + b.bits)
 
         new_si = a.lshift(b.bits)
-        new_b = b.copy()
         # Zero-extend b
-        new_b._bits = new_si.bits
+        new_b = b.zero_extend(new_si.bits)
 
         if new_si.is_integer:
             # We can be more precise!
             new_si._bits = new_b.bits
             new_si._stride = new_b.stride
-            new_si._lower_bound = new_si.lower_bound + b.lower_bound
-            new_si._upper_bound = new_si.upper_bound + b.upper_bound
+            new_si._lower_bound = new_si.lower_bound + new_b.lower_bound
+            new_si._upper_bound = new_si.upper_bound + new_b.upper_bound
             return new_si
         return new_si.bitwise_or(new_b)
 
